@@ -136,6 +136,12 @@ Result execute(MVal& plan, Stats& st) {
         if (!v.empty()) { std::string cls = plan.gets("abort_cls"); set_fail(res, plan, v, doc, &patch, nullptr); if (!cls.empty()) res.cls += "." + cls; return res; }
         if (mode == "single") { res.hash = h; return res; }
         st.inc("history_ops", patch.a.size());
+        // a patch that is not an array at all
+        {
+            MVal notarr = (h & 1) ? MVal::obj() : MVal::str("patch");
+            v = check_one(doc, notarr, ordered, use_ec, st, "not_array");
+            if (!v.empty()) { set_fail(res, plan, v, doc, &notarr, nullptr); return res; }
+        }
         // 2. diff law on (document before, document after the history)
         MVal after = doc;
         if (pm::apply_patch(after, patch)) {
